@@ -100,3 +100,15 @@ PROPS["C13"] = dict(
     assumptions=["TLC checks on the model that the two formulations coincide for D = {} and that a dash only removes whitespace",
                  "text pieces are symbolic in Exec and substituted afterwards, so the expectation does not depend on the text content"],
 )
+
+PROPS["C14"] = dict(
+    level="model_checking",
+    stages=[dict(name="enum", module="MC_C14", cfg={"quick": "MC_C14_quick.cfg", "thorough": "MC_C14_thorough.cfg"},
+                 timeout={"quick": 300, "thorough": 1800}, limit="20s")],
+    nontrivial=lambda r: True,
+    rule="C13 corpus (every tag kind, with and without dashes) x pad position (each text piece, all text pieces) x pad "
+         "content (plain text, text with lone braces/quotes/backslash, comment, empty print tags) ; one render per pad length "
+         "0 / 1 / 4000 / 20480 (/ 102400 / 300000) and per exact template size 4095..4098, 8192; thorough also RenderTo writers",
+    assumptions=["metamorphic: Exec copies text pieces verbatim, so pad tokens travel from source to expected output",
+                 "pads stand in the middle of a text piece, never next to a delimiter"],
+)
